@@ -145,4 +145,51 @@ MyTokFrom(src, p, toks) ==
         LET e == SkipBlock(src, p + 2) IN IF e = -1 THEN Append(toks, [k |-> "lexerror"]) ELSE MyTokFrom(src, e, toks)
     ELSE MyTokFrom(src, p + 1, Append(toks, [k |-> "ch", c |-> c]))
 MyTokens(src) == MyTokFrom(src, 1, <<>>)
+---------------------------------------------------------------------------
+\* (c) the option rewriters of processors.go, as coded
+
+RwErr == <<-9>>
+
+\* DoubleQuotesToBackTick: "..." becomes `...`; inside it \" and "" stand for a quote character and a
+\* back quote is doubled; '...' (with backslash escapes) and `...` are copied
+RECURSIVE DQ2BTFrom(_, _, _, _)
+DQ2BTFrom(s, p, mode, out) ==
+    LET c == At(s, p) n == At(s, p + 1) IN
+    IF c = -1 THEN out
+    ELSE CASE mode = "raw" ->
+                 IF c = SQ THEN DQ2BTFrom(s, p + 1, "sq", Append(out, c))
+                 ELSE IF c = BT THEN DQ2BTFrom(s, p + 1, "bt", Append(out, c))
+                 ELSE IF c = DQ THEN DQ2BTFrom(s, p + 1, "dq", Append(out, BT))
+                 ELSE DQ2BTFrom(s, p + 1, "raw", Append(out, c))
+           [] mode = "sq" ->
+                 IF c = SQ THEN DQ2BTFrom(s, p + 1, "raw", Append(out, c))
+                 ELSE IF c = BS THEN (IF n = -1 THEN RwErr ELSE DQ2BTFrom(s, p + 2, "sq", out \o <<c, n>>))
+                 ELSE DQ2BTFrom(s, p + 1, "sq", Append(out, c))
+           [] mode = "bt" ->
+                 DQ2BTFrom(s, p + 1, IF c = BT THEN "raw" ELSE "bt", Append(out, c))
+           [] OTHER ->
+                 IF c = DQ THEN (IF n = DQ THEN DQ2BTFrom(s, p + 2, "dq", Append(out, DQ))
+                                 ELSE DQ2BTFrom(s, p + 1, "raw", Append(out, BT)))
+                 ELSE IF c = BT THEN DQ2BTFrom(s, p + 1, "dq", out \o <<BT, BT>>)
+                 ELSE IF c = BS THEN (IF n = -1 THEN RwErr
+                                      ELSE IF n = DQ THEN DQ2BTFrom(s, p + 2, "dq", Append(out, DQ))
+                                      ELSE DQ2BTFrom(s, p + 1, "dq", Append(out, c)))
+                 ELSE DQ2BTFrom(s, p + 1, "dq", Append(out, c))
+DQ2BT(s) == DQ2BTFrom(s, 1, "raw", <<>>)
+
+\* FindArrayIndex + FixIdiomaticArray: outside quotes (a backslash skips the next byte anywhere) every [
+\* becomes ARRAY( and every ] becomes ) ; a ] with no open [ or an unclosed [ is an error
+ARRAYP == <<65, 82, 82, 65, 89, 40>>
+RECURSIVE FixArrFrom(_, _, _, _, _)
+FixArrFrom(s, p, hold, pending, out) ==
+    LET c == At(s, p) IN
+    IF c = -1 THEN (IF pending # 0 THEN RwErr ELSE out)
+    ELSE IF c = BS THEN FixArrFrom(s, p + 2, hold, pending, out \o (IF At(s, p + 1) = -1 THEN <<c>> ELSE <<c, At(s, p + 1)>>))
+    ELSE IF c \in {DQ, SQ, BT} THEN
+        FixArrFrom(s, p + 1, IF hold = 0 THEN c ELSE IF hold = c THEN 0 ELSE hold, pending, Append(out, c))
+    ELSE IF hold # 0 THEN FixArrFrom(s, p + 1, hold, pending, Append(out, c))
+    ELSE IF c = 91 THEN FixArrFrom(s, p + 1, hold, pending + 1, out \o ARRAYP)
+    ELSE IF c = 93 THEN (IF pending = 0 THEN RwErr ELSE FixArrFrom(s, p + 1, hold, pending - 1, Append(out, 41)))
+    ELSE FixArrFrom(s, p + 1, hold, pending, Append(out, c))
+FixArr(s) == FixArrFrom(s, 1, 0, 0, <<>>)
 =============================================================================
